@@ -384,26 +384,29 @@ SEQ_ASSUME = ["songs are generated from the integral-tempo family (one tick = wh
               "harness/drive_seq.cpp encodes abstract songs to SMF bytes (trusted encoder, ~60 lines)"]
 
 
-def run_seq_family(pid, tier, replay, make_histories):
+def run_seq_family(pid, tier, replay, make_histories, model=True):
     t0 = time.time()
     rng = random.Random(vc.seed() * 7919 + sum(map(ord, pid)))
 
     def rerun(hist):
-        f, _, _ = vtrace.run_histories(pid + "r", "drive_seq", "SeqTrace", [hist], nchunks=1)
+        f, _, _ = vtrace.run_histories(pid + "r", "drive_seq", "SeqTrace", [hist], nchunks=1, tlc_env={"SEQ_REFINE": "0"})
         return f
 
     if replay:
         return replay_one(pid, replay, rerun)
     histories = make_histories(rng, tier)
-    failures, counters, stats = vtrace.run_histories(pid, "drive_seq", "SeqTrace", histories, tlc_timeout=1500)
+    failures, counters, stats = vtrace.run_histories(pid, "drive_seq", "SeqTrace", histories, tlc_timeout=1500,
+                                                     tlc_env={"SEQ_REFINE": "1" if model else "0"})
     if stats["infra"]:
         print("INFRA:", stats["infra"][0][:2000])
         return 3
-    mruns = seq_model_phase(pid, tier)
+    mruns = seq_model_phase(pid, tier) if model else []
     coverage = {
         "states": sum(r.distinct for r in mruns), "transitions": sum(r.generated for r in mruns),
         "traces_validated_against_impl": len(histories), "records_validated": stats["records"],
         "monitor_counters": counters,
+        "refinement": {"plays_checked_against_model": counters.get("refined", 0), "plays_drifted": counters.get("drifted", 0),
+                       "first_drifts": stats.get("drift", [])[:4]},
         "samples": [[{k: v for k, v in c.items() if k != "tracks"} if c.get("e") == "Song" else c for c in h] for h in histories[:2]] +
                    [h[1] for h in histories[:1]],
         "evaluations": counters.get("events", 0), "distinct_nontrivial": len(histories),
@@ -415,6 +418,8 @@ def run_seq_family(pid, tier, replay, make_histories):
     for r in mruns:
         if r.violation or not r.ok:
             print("MODEL-DRIFT: %s reports %s" % (getattr(r, "scope", {}), r.violation or ("rc=%s" % r.rc)))
+    if counters.get("drifted", 0):
+        print("MODEL-DRIFT: %d recorded plays differ from the delivery predicted by spec/Seq.tla: %s" % (counters["drifted"], json.dumps(stats.get("drift", [])[:2])))
     level = "model_checking" if coverage["states"] > 0 else "exploration"
     return conclude(pid, tier, level, histories, failures, rerun, coverage, t0, SEQ_ASSUME)
 
@@ -468,4 +473,4 @@ def check_c08(pid, tier, replay):
             # melodic channels only: no percussion minimum-life residue after the seek
             hs.append(gen_seq.seek_history(rng, song))
         return hs
-    return run_seq_family(pid, tier, replay, mk)
+    return run_seq_family(pid, tier, replay, mk, model=False)
